@@ -25,6 +25,19 @@ def equals(rng):
     return '=' if rng.random() < 0.85 else rng.choice([' = ', ' =', '= ', '\n=\n', '\t=', '=  '])
 
 
+BLANK_IN_END_TAG = {'p': 0.0}       # switched on by C09 for its D2 documents only (open finding: `</div >` is not seen as a tag; the repository's own suite pins that)
+
+
+def end_tag(rng, name, xml):
+    """`</name>`; white space may stand before the `>` (XML: ETag ::= '</' Name S? '>', HTML likewise), and in HTML - not in XML - the name of the
+    end tag need not repeat the letter case of the start tag"""
+    r = rng.random()
+    if not xml and r < 0.08:
+        alt = rng.choice([name.upper(), name.lower(), name.capitalize()])
+        name = alt
+    return '</' + name + (rng.choice([' ', '\n', '\t ', '  ']) if rng.random() < BLANK_IN_END_TAG['p'] else '') + '>'
+
+
 def gen_attrs(rng, w, rich=True):
     attrs = []
     for _ in range(rng.choice([0, 0, 1, 1, 2, 3] * 5 + [6, 9, 14])):
@@ -92,12 +105,16 @@ def gen_elem(rng, depth, w, recs, parent, xml, max_depth=4, max_children=3):
             name = rng.choice([name.upper(), name.capitalize()])       # HTML tag names are case-insensitive; in XML mode the element is closed explicitly
     elif kind == 'special':
         name = rng.choice(['script', 'style'])
+        if not xml and rng.random() < 0.12:
+            name = rng.choice([name.upper(), name.capitalize()])       # <SCRIPT LANGUAGE=...> of older pages: the same element in HTML
     elif kind == 'tscript':
         name = 'script'
     else:
         name = rng.choice(NAMES)
         if kind == 'self' and rng.random() < 0.15:
             name = rng.choice(['script', 'style'])        # a self-closed special element has no body to skip
+        elif rng.random() < 0.08:
+            name = rng.choice([name.upper(), name.capitalize()])
     os_, _ = w.add('<' + name)
     if kind == 'tscript':
         # script with a non-JS type is NOT special: its body is ordinary markup
@@ -167,7 +184,7 @@ def gen_elem(rng, depth, w, recs, parent, xml, max_depth=4, max_children=3):
         return rec
     if kind == 'void':
         if xml:
-            rec['close'] = w.add('</' + name + '>')
+            rec['close'] = w.add(end_tag(rng, name, xml))
         return rec
     if kind == 'special':
         w.add(rng.choice(SPECIAL_BODIES))
@@ -178,7 +195,7 @@ def gen_elem(rng, depth, w, recs, parent, xml, max_depth=4, max_children=3):
             gen_elem(rng, depth + 1, w, recs, rec, xml, max_depth, max_children)
         if rng.random() < 0.5:
             w.add(rng.choice(['', 'text', '\n', 'a < b', '<!-- c -->']))
-    rec['close'] = w.add('</' + name + '>')
+    rec['close'] = w.add(end_tag(rng, name, xml))
     return rec
 
 
@@ -203,7 +220,8 @@ def self_check(src, recs):
         o = src[r['open'][0]:r['open'][1]]
         assert o.startswith('<' + r['name']) and o.endswith('>'), (o, r['name'])
         if r['close']:
-            assert src[r['close'][0]:r['close'][1]] == '</' + r['name'] + '>'
+            c = src[r['close'][0]:r['close'][1]]
+            assert c[:2] == '</' and c[-1] == '>' and c[2:-1].strip().lower() == r['name'].lower() and c[2:-1].rstrip() == c[2:-1].strip(), (c, r['name'])
         for a in r['attrs']:
             assert src[a['ns']:a['ne']] == a['name']
             if a['val'] is not None:
